@@ -173,6 +173,10 @@ fn break_structure(rng: &mut Rng, kind: &str, text: &str) -> Option<(String, Str
         "buildinfo" => &["Format", "Build-Architecture", "Source", "Architecture", "Version"],
         _ => &[],
     };
+    if rng.chance(1, 12) && matches!(kind, "control" | "copyright" | "apt-release" | "apt-source" | "apt-package" | "removal") {
+        // no paragraph at all
+        return Some(("no-paragraph".into(), rng.s(&["", "\n", "# only a comment\n", "\n\n# c\n\n"]).to_string()));
+    }
     match rng.below(4) {
         0 if kind == "control" => {
             // no source paragraph
